@@ -160,6 +160,9 @@ def integer_fields(draw, name, fmt, mode=None):
         lo = draw(st.integers(0, shortest))
         hi = draw(st.integers(longest, longest + 2))
         length_text, length_items = "%d...%d" % (lo, hi), [[lo, hi]]
+    if length_text == "" and not fixed:
+        # no length: the cell is empty or holds nothing but blanks
+        length_text = draw(st.sampled_from(["", "", " ", "\t", "  "]))
     return {"name": name, "empty": empty, "length": length_text, "length_items": length_items, "type": "Integer",
             "rule": rule, "model": {"range_items": range_items, "mode": mode}}
 
@@ -694,8 +697,10 @@ def text_fields(draw, name, fmt):
         length_text, length_items = str(width), [[width, width]]
     else:
         length_text, length_items = draw(length_decls())
+    # Text takes anything - also when somebody wrote something into the rule column
+    rule = draw(st.sampled_from(["", "", "", '"a"..."z"', "32...126", "abc", "[0-9]+", "*", "65"]))
     return {"name": name, "empty": empty, "length": length_text, "length_items": length_items, "type": "Text",
-            "rule": "", "model": {}}
+            "rule": rule, "model": {}}
 
 
 def _text_cells(draw, field, fmt, n):
